@@ -235,6 +235,7 @@ InitEp(role, cfg, maxClosed) ==
    sat |-> FALSE,               \* a number of the implementation left the 32-bit range this model computes in
    dl |-> FALSE,                \* the HPACK decoder gave up in the middle of a block (its table is no longer predictable)
    inited |-> FALSE,            \* initiate_connection has been called (the connection state machine does not know)
+   eg |-> <<>>,                 \* (ghost for C07) per stream id, how far the events reported for it have got: see EgNext
    upgRet |-> <<>>,             \* the HTTP2-Settings payload initiate_upgrade_connection returned (client)
    dev |-> {}]
 
@@ -837,7 +838,7 @@ Shift(ev, k) == IF "se" \in DOMAIN ev /\ "pu" \in DOMAIN ev
 FDM == Exc("FrameDataMissingError", 6)
 FTL == Exc("FrameTooLargeError", 6)
 Bit(f, b) == (f.fl \div b) % 2 = 1
-RawErr(x) == [k |-> "err", x |-> x]
+RawErr(x) == [k |-> "err", x |-> x, dev |-> ""]
 RawOk(f) == [k |-> "ok", f |-> f]
 RawParse(f, lim) ==
   LET padded == Bit(f, 8) IN
@@ -868,7 +869,8 @@ RawParse(f, lim) ==
                                 pr |-> <<>>, pid |-> 0, nb |-> f.len])
          [] f.typ = 2 -> IF f.len # 5 THEN RawErr(FDM) ELSE RawOk(FPrio(f.sid, f.w, f.dep, f.excl))
          [] f.typ = 3 -> IF f.len # 4 THEN RawErr(FDM) ELSE RawOk(FRst(f.sid, f.code))
-         [] f.typ = 4 -> IF Bit(f, 1) /\ f.len > 0 THEN RawErr(PE)
+         \* (a SETTINGS ACK with a payload is a frame-size violation by RFC 7540 6.5; the parser calls it invalid data)
+         [] f.typ = 4 -> IF Bit(f, 1) /\ f.len > 0 THEN [RawErr(PE) EXCEPT !.dev = "settings_ack_length_code"]
                          ELSE IF f.len % 6 # 0 THEN RawErr(FDM)
                          ELSE RawOk(IF Bit(f, 1) THEN FSettingsAck ELSE FSettings(f.s))
          [] f.typ = 6 -> IF f.len # 8 THEN RawErr(FDM) ELSE RawOk(FPing(Bit(f, 1), f.tag))
@@ -915,7 +917,7 @@ ReceiveLoop(ep, fs, evs, lim) ==
        IN [ep |-> [Terminate(e1, 6) EXCEPT !.pend = fs], r |-> Exc("FrameTooLargeError", 6), ev |-> <<>>]
   ELSE IF fs[1].t = "RAW"
   THEN LET p == RawParse(fs[1], lim) IN
-       IF p.k = "err" THEN [ep |-> [Terminate(ep, p.x.e) EXCEPT !.pend = fs], r |-> p.x, ev |-> <<>>]
+       IF p.k = "err" THEN [ep |-> [Terminate(IF p.dev # "" THEN Mark(ep, p.dev) ELSE ep, p.x.e) EXCEPT !.pend = fs], r |-> p.x, ev |-> <<>>]
        ELSE LET hbr == HeaderBuffer(ep, p.f, fs[1].gt) IN
             IF hbr.k = "err" THEN [ep |-> [Terminate(hbr.ep, 1) EXCEPT !.pend = Tail(fs)], r |-> PE, ev |-> <<>>]
             ELSE IF hbr.k = "hold" THEN ReceiveLoop(hbr.ep, Tail(fs), evs, lim)
@@ -945,12 +947,50 @@ RECURSIVE Unglue(_)
 Unglue(fs) == IF fs = <<>> THEN <<>>
               ELSE IF HasPre(fs[1]) THEN <<FPreface, [fs[1] EXCEPT !.pre = FALSE]>> \o Unglue(Tail(fs))
               ELSE <<fs[1]>> \o Unglue(Tail(fs))
-Receive(ep, fs) ==
+\* ---------------------------------------------------------------- the HTTP message grammar of reported events (ghost, C07)
+\* phase of a stream as the application has been told: "N" nothing yet, "I" informational response(s), "H" final headers,
+\* "D" body, "T" trailers, "E" ended, "R" reset.  EgNext gives the phase after an event, or "BAD" if the event may not come now.
+EgPhase(eg, sid) == IF sid \in DOMAIN eg THEN eg[sid] ELSE "N"
+EgNext(ph, t) ==
+  CASE t \in {"Req", "Resp"} -> IF (t = "Req" /\ ph = "N") \/ (t = "Resp" /\ ph \in {"N", "I"}) THEN "H" ELSE "BAD"
+    [] t = "Info"  -> IF ph \in {"N", "I"} THEN "I" ELSE "BAD"
+    [] t = "Data"  -> IF ph \in {"H", "D"} THEN "D" ELSE "BAD"
+    [] t = "Trl"   -> IF ph \in {"H", "D"} THEN "T" ELSE "BAD"
+    [] t = "End"   -> IF ph \in {"H", "D", "T"} THEN "E" ELSE "BAD"
+    [] t = "Reset" -> IF ph # "R" THEN "R" ELSE "BAD"
+    [] t = "Prio"  -> ph
+    [] t = "WU"    -> IF ph = "R" THEN "BAD" ELSE ph
+    [] OTHER       -> ph
+RECURSIVE EgApply(_, _)
+EgApply(eg, evs) ==
+  IF evs = <<>> THEN eg
+  ELSE LET e == evs[1] IN
+       IF "sid" \in DOMAIN e /\ e.t # "Push" /\ ~(e.t = "WU" /\ e.sid = 0)
+       THEN LET nx == EgNext(EgPhase(eg, e.sid), e.t) IN EgApply((e.sid :> (IF nx = "BAD" THEN EgPhase(eg, e.sid) ELSE nx)) @@ eg, Tail(evs))
+       ELSE EgApply(eg, Tail(evs))
+\* do the events of one receive_data() call follow the grammar, given the phases before it?
+RECURSIVE EgOK(_, _, _, _)
+EgOK(eg, evs, i, role) ==
+  IF i > Len(evs) THEN TRUE
+  ELSE LET e == evs[i] IN
+       IF "sid" \in DOMAIN e /\ e.t # "Push" /\ ~(e.t = "WU" /\ e.sid = 0)
+       THEN LET ph == EgPhase(eg, e.sid)
+                nx == EgNext(ph, e.t)
+                \* related events: later in the same list, of the right kind, for the same stream; trailers always end the stream
+                seOK == ("se" \notin DOMAIN e) \/ e.se = -1 \/ (e.se > i /\ e.se <= Len(evs) /\ evs[e.se].t = "End" /\ evs[e.se].sid = e.sid)
+                puOK == ("pu" \notin DOMAIN e) \/ e.pu = -1 \/ (e.pu > i /\ e.pu <= Len(evs) /\ evs[e.pu].t = "Prio" /\ evs[e.pu].sid = e.sid)
+                trlOK == e.t # "Trl" \/ e.se > i
+                roleOK == IF role = "s" THEN e.t \notin {"Resp", "Info"} ELSE e.t # "Req"
+            IN nx # "BAD" /\ seOK /\ puOK /\ trlOK /\ roleOK /\ EgOK((e.sid :> nx) @@ eg, evs, i + 1, role)
+       ELSE (e.t = "Push" => role = "c") /\ EgOK(eg, evs, i + 1, role)
+
+Receive0(ep, fs) ==
   IF ep.needPre /\ fs # <<>>
   THEN IF HasPre(fs[1]) THEN ReceiveLoop([ep EXCEPT !.needPre = FALSE], <<[fs[1] EXCEPT !.pre = FALSE]>> \o Unglue(Tail(fs)), <<>>, ep.mif)
        \* (the refused input is dropped: a header block in it never reaches the HPACK decoder)
        ELSE [ep |-> [ep EXCEPT !.dl = @ \/ \E i \in 1..Len(fs) : fs[i].t \in {"HEADERS", "PP"}], r |-> PE, ev |-> <<>>]
   ELSE ReceiveLoop(ep, ep.pend \o Unglue(fs), <<>>, ep.mif)
+Receive(ep, fs) == LET r == Receive0(ep, fs) IN [r EXCEPT !.ep.eg = EgApply(ep.eg, r.ev)]
 
 
 \* get_next_available_stream_id (-1: none left)
